@@ -216,9 +216,7 @@ func FromNode(n *refcodec.Node) datatype.Type {
 		return datatype.IPv6(net.IP(append([]byte(nil), n.B...)))
 	case refcodec.Grouped:
 		g := &diam.GroupedAVP{}
-		for _, k := range n.Kids {
-			g.AddAVP(diam.NewAVP(k.Code, k.Flags, k.Vendor, FromNode(k)))
-		}
+		fillGroup(g, n)
 		return g
 	default:
 		return datatype.Unknown(append([]byte(nil), n.B...))
@@ -383,4 +381,34 @@ func Safely(f func()) (err error) {
 	}()
 	f()
 	return nil
+}
+
+// fillGroup gives g the members of n. Half of the groups (chosen by the node
+// itself, so that a case is reproducible) are assembled top-down: a member
+// that is a group joins its parent while still empty and is filled afterwards -
+// an order of public API calls an application may well use.
+func fillGroup(g *diam.GroupedAVP, n *refcodec.Node) {
+	if (int(n.Code)+len(n.Kids))%2 == 0 {
+		for _, k := range n.Kids {
+			g.AddAVP(diam.NewAVP(k.Code, k.Flags, k.Vendor, FromNode(k)))
+		}
+		return
+	}
+	type later struct {
+		g *diam.GroupedAVP
+		n *refcodec.Node
+	}
+	var pending []later
+	for _, k := range n.Kids {
+		if k.Kind == refcodec.Grouped {
+			cg := &diam.GroupedAVP{}
+			g.AddAVP(diam.NewAVP(k.Code, k.Flags, k.Vendor, cg))
+			pending = append(pending, later{cg, k})
+			continue
+		}
+		g.AddAVP(diam.NewAVP(k.Code, k.Flags, k.Vendor, FromNode(k)))
+	}
+	for _, p := range pending {
+		fillGroup(p.g, p.n)
+	}
 }
